@@ -48,6 +48,12 @@ class _Docker:
         def gen():
             n = script["nchunks"]
             for i in range(n):
+                if script.get("write_at") == i:
+                    # a job that dies late has usually opened (and partly filled) its output file already
+                    res_early = m.get("/results")
+                    if res_early is not None:
+                        (Path(str(res_early[0])) / script["result_name"]).write_text(f"PARTIAL RESULT image={image} call={len(CALLS)}\n")
+                        rec["wrote_partial"] = True
                 if script["outcome"] == "fail_after" and i == script["k"]:
                     raise DockerException(["docker", "run", image], 1, b"", b"boom")
                 yield ("stdout" if i % 2 == 0 else "stderr", f"chunk {i}\n".encode())
